@@ -9,7 +9,7 @@ EXTENDS Notation, Json
 CONSTANTS Emit, MaxLen, MaxN
 VARIABLE s
 
-Kinds == {"valid", "invalid", "unfetchable", "nilOutcome"}
+Kinds == {"valid", "invalid", "unfetchable", "nilOutcome", "repeat"}
 Listings == UNION {[1..n -> Kinds] : n \in 0..MaxLen}
 (* page-size sequences: every composition of n into positive parts, each optionally with one empty page inserted *)
 RECURSIVE Sum(_)
@@ -38,8 +38,8 @@ FetchIdx == CallsOf(s, "Fetch")
 Inv_C10 == Done =>
   /\ (s.verdict = "success" <=> D_VerifySucceeds(s.in))
   /\ (s.verdict = "success" /\ s.in.skip = "no" =>
-        /\ s.retDesc = "resolved" /\ s.outcomes = <<FirstValid(s.in)>>
-        /\ FetchIdx = [k \in 1..FirstValid(s.in) |-> k] /\ CallsOf(s, "Verify") = FetchIdx)
+        /\ s.retDesc = "resolved" /\ s.outcomes = <<Canon(s.in, FirstValid(s.in))>>
+        /\ FetchIdx = [k \in 1..FirstValid(s.in) |-> k] /\ CallsOf(s, "Verify") = [k \in 1..FirstValid(s.in) |-> Canon(s.in, k)])
   /\ (s.in.skip # "no" /\ s.in.n > 0 => s.calls = <<[c |-> "SkipVerify", k |-> 0]>>)
   /\ (s.in.skip # "no" => Len(FetchIdx) = 0 /\ Len(CallsOf(s, "Resolve")) = 0 /\ Len(CallsOf(s, "List")) = 0)
   \* a failure never hands out a descriptor
